@@ -446,7 +446,13 @@ class C07(Monitor):
         for t in tags:
             if t in self.cut:
                 continue
-            self.cut[t] = (len(started_of(w, t)), w.pulled[t], set(live_of(w, t)))
+            suspended = set(live_of(w, t))
+            cur = asyncio.current_task()
+            if cur is not None:
+                # the op was issued from user code: the issuing worker itself is running, not
+                # suspended; it may finish without another suspension point
+                suspended = {k for k in suspended if f"{w.pools[k[0]]}_Task-{k[1]}" != cur.get_name()}
+            self.cut[t] = (len(started_of(w, t)), w.pulled[t], suspended)
             try:
                 ids = w.pools[p].get_group_ids(self.pre_groups[t])
                 self.v("cancelled group still reported by get_group_ids", t, sorted(ids))
@@ -472,9 +478,10 @@ class C07(Monitor):
                     self.v("task of a cancelled group still running at the next quiet idle", k)
                 elif w.cancel_seen[k] < 1:
                     self.v("suspended task of a cancelled group saw no CancelledError", k, w.exited[k])
-            for k in started_of(w, t):
-                if k not in w.exited:
-                    self.v("task of a cancelled group still running at quiet idle", k)
+            if w.scen.get("worker", "plain") == "plain":
+                for k in started_of(w, t):
+                    if k not in w.exited:
+                        self.v("task of a cancelled group still running at quiet idle", k)
 
 
 class C08(Monitor):
@@ -1008,7 +1015,10 @@ class C13(Monitor):
         pc = w.pcs[i] - 1
         if pos and pos[0] and out[0] != "ok":
             self.v("flush(return_exceptions=True) raised", out)
-        for k in sorted(self.fin.pop((i, pc), ())):
+        fin = sorted(self.fin.pop((i, pc), ()))
+        if out[0] != "ok":
+            return  # flush() raised a task's exception: it did not "return" (what it may raise is C12's)
+        for k in fin:
             c = w.classify(k)
             if c != "unknown":
                 self.v("task finished before flush() is still remembered after it returned", k, c)
@@ -1069,12 +1079,12 @@ class C14(Monitor):
             self.exp = self.running_ids(p)[: max(0, pos[0])]
         elif name == "stop_all":
             self.exp = self.running_ids(p)
-        elif name == "cancel":
-            self.expected.update((p, self.w.resolve_id(s)) for s in pos)
 
     def after_op(self, i, op, out):
         name, pos, opts = split_op(op)
         p = opts.get("p", 0)
+        if name == "cancel" and out[0] == "ok":
+            self.expected.update((p, t) for t in out[1])
         if name in ("stop", "stop_all"):
             if out[0] != "ok":
                 self.v(f"{name} raised", out)
@@ -1104,6 +1114,25 @@ class C15(Monitor):
     def __init__(self, world):
         super().__init__(world)
         self.before = None
+        self.grand = {}
+        self.allow = {}
+        self.pre = None
+
+    def __canon__(self):
+        return (sorted((p, sorted(v)) for p, v in self.grand.items()), sorted(self.allow.items()))
+
+    def demand(self, p):
+        w = self.w
+        demand = 0
+        for t, r in w.reqs.items():
+            if r.p != p or t in w.group_cancelled:
+                continue
+            made = len(w.created.get(t, ())) + len(w.skipped.get(t, ()))
+            rem = r.num - made
+            if r.kind == "map":
+                rem = min(rem, r.nc - len(live_of(w, t)))
+            demand += max(0, rem)
+        return demand
 
     def sample(self, kind, key, tag):
         w = self.w
@@ -1111,9 +1140,14 @@ class C15(Monitor):
             ps = w.pools[p].pool_size
             if ps != w.cfg_size[p]:
                 self.v("pool_size does not report the configured maximum", p, ps, w.cfg_size[p], w.live[p], kind)
-        if kind == "w_start":
+        if kind == "w_start" and key[1] not in self.grand.get(key[0], ()):
+            # tasks created before the latest assignment were admitted under the old limit
             p = key[0]
-            if w.live[p] > w.cfg_size[p]:
+            if w.live[p] > w.cfg_size[p] and self.allow.get(p, 0) > 0:
+                # an admission the old limit had already granted (free room and pending demand
+                # at the moment of the assignment: slot in transit to a woken spawner)
+                self.allow[p] -= 1
+            elif w.live[p] > w.cfg_size[p]:
                 self.v("task admitted although the running count is not below the limit in force", p, w.live[p], w.cfg_size[p])
         if kind == "w_cancel" and key not in w.cancel_targets and tag not in w.group_cancelled:
             self.v("resizing cancelled a running task", key)
@@ -1124,6 +1158,9 @@ class C15(Monitor):
         if name == "set_size":
             p = opts.get("p", 0)
             self.before = (w.pools[p].pool_size, w.pools[p].num_running, w.live[p], len(w.started))
+            occupied = w.pools[p].num_running + w.pools[p].num_cancelled
+            old = w.cfg_size[p]
+            self.pre = min(max(0, old - occupied), self.demand(p)) if old != INF else self.demand(p)
 
     def after_op(self, i, op, out):
         w = self.w
@@ -1139,21 +1176,16 @@ class C15(Monitor):
                 self.v("rejected pool_size assignment changed something", self.before, now)
         elif out[0] != "ok":
             self.v("valid pool_size assignment raised", out)
+        else:
+            self.grand[p] = set(w.all_created(p))
+            self.allow[p] = self.pre
 
     def quiet_idle(self):
         w = self.w
         for p in pools_of(w):
             if p in w.closing:
                 continue
-            demand = 0
-            for t, r in w.reqs.items():
-                if r.p != p or t in w.group_cancelled:
-                    continue
-                made = len(w.created.get(t, ())) + len(w.skipped.get(t, ()))
-                rem = r.num - made
-                if r.kind == "map":
-                    rem = min(rem, r.nc - len(live_of(w, t)))
-                demand += max(0, rem)
+            demand = self.demand(p)
             if demand > 0 and w.live[p] < w.cfg_size[p]:
                 self.v("tasks waiting for room although the running count is below the limit in force",
                        p, w.live[p], w.cfg_size[p], demand)
